@@ -78,16 +78,7 @@ func registerVF(P *Program) {
 	r("Choose", func(in *Interp, args []Value) Value {
 		name := argStr(args[0])
 		n := in.concreteInt(args[1].(*Term), "vf.Choose n")
-		c := in.choice(n)
-		key := name
-		for i := 1; ; i++ {
-			if _, dup := in.choices[key]; !dup {
-				break
-			}
-			key = fmt.Sprintf("%s#%d", name, i)
-		}
-		in.choices[key] = c
-		return in.ts.BV(64, uint64(c))
+		return in.ts.BV(64, uint64(in.namedChoice(name, n)))
 	})
 	r("Assume", func(in *Interp, args []Value) Value {
 		c := args[0].(*Term)
@@ -201,8 +192,27 @@ func registerVF(P *Program) {
 	r("RegisterUFBytes", func(in *Interp, args []Value) Value { return nil })
 	r("RegisterUFBool", func(in *Interp, args []Value) Value { return nil })
 	r("Reset", func(in *Interp, args []Value) Value { return nil })
+	P.reg(vfPkg+".Par", func(in *Interp, caller *frame, fn *ssa.Function, args []Value) Value {
+		in.vfPar(caller, args[0], args[1])
+		return nil
+	})
+	r("Yield", func(in *Interp, args []Value) Value { in.vfYield(); return nil })
 	r("Note", func(in *Interp, args []Value) Value { in.res.note(argStr(args[0])); return nil })
 	r("Now", func(in *Interp, args []Value) Value { return TimeV{in.now()} })
+}
+
+// namedChoice: an n-way choice point recorded under a (disambiguated) name so that native replays can follow it.
+func (in *Interp) namedChoice(name string, n int) int {
+	c := in.choice(n)
+	key := name
+	for i := 1; ; i++ {
+		if _, dup := in.choices[key]; !dup {
+			break
+		}
+		key = fmt.Sprintf("%s#%d", name, i)
+	}
+	in.choices[key] = c
+	return c
 }
 
 func (in *Interp) ufBytes(name string, n int, ins ...*Term) SliceV {
